@@ -51,6 +51,30 @@ def _assigns(ctx: Ctx, f: FunctionInfo, h: ast.ExceptHandler, name: str, value: 
     return False
 
 
+def _keeps_protection(ctx: Ctx, f: FunctionInfo, h: ast.ExceptHandler, may_delete: bool) -> bool:
+    """Path-sensitive walk from the handler to the end of the sweep iteration: the marker's file ends up protected."""
+    from .c06 import sweep_model
+    from .common import explore
+    sm = sweep_model(ctx)
+    if sm["fn"] is not f:
+        return False
+    g = ctx.cfg(f)
+    hn = next((x for x in g.nodes if x.kind == "handler" and x.ast is h), None)
+    if hn is None:
+        return False
+    adds, dels = sm["adds"], sm["deletes"]
+    res = explore(ctx, f, [hn.id], stop=[sm["loop"].id], watch=[a.id for a in adds] + [d.id for d in dels])
+    marker_atoms = sm["marker_atoms"]
+    for _end, store, asm in res:
+        if any(asm.get(k) is False for k in marker_atoms):
+            continue  # not a marker at all
+        if not any(store.get(("seen", a.id)) for a in adds):
+            return False
+        if not may_delete and any(store.get(("seen", d.id)) for d in dels):
+            return False
+    return bool(res)
+
+
 def _returned_names(ctx: Ctx, f: FunctionInfo) -> Set[str]:
     return {norm_text(n.ast.value) for n in ctx.cfg(f).nodes if n.kind == "return" and n.ast is not None and n.ast.value is not None}  # type: ignore[union-attr]
 
@@ -67,12 +91,12 @@ def _no_delete(ctx: Ctx, f: FunctionInfo, h: ast.ExceptHandler) -> bool:
 def conservative_table() -> Dict[Tuple[str, str], Tuple[str, Callable[[Ctx, FunctionInfo, ast.ExceptHandler], bool]]]:
     return {
         ("_load_inflight_protection", "get_modified_time"): (
-            "cannot stat the marker: protection is kept (age_ok = True)",
-            lambda c, f, h: _assigns(c, f, h, "age_ok", True)),
+            "cannot stat the marker: protection is kept (every path from the handler to the end of the iteration passes "
+            "protected.add and none deletes the marker)",
+            lambda c, f, h: _keeps_protection(c, f, h, may_delete=False)),
         ("_load_inflight_protection", "delete_file"): (
-            "stale marker could not be removed: its file stays protected (protected.add)",
-            lambda c, f, h: any(isinstance(n.ast, ast.Call) and isinstance(n.ast.func, ast.Attribute) and n.ast.func.attr == "add"
-                                and norm_text(n.ast.func.value) in _returned_names(c, f) for n in _calls_in_handler(c, f, h))),
+            "stale marker could not be removed: its file stays protected (every path from the handler passes protected.add)",
+            lambda c, f, h: _keeps_protection(c, f, h, may_delete=True)),
         ("_gc_prefix", "delete_file+get_modified_time"): (
             "stat/delete of one orphan failed: nothing is deleted for it, nothing live is at risk",
             lambda c, f, h: _no_delete(c, f, h)),
